@@ -2022,6 +2022,9 @@ static struct uref *upipe_h264f_prepare_annexb(struct upipe *upipe)
         upipe_h264f->active_sps == -1 || upipe_h264f->active_pps == -1) {
         upipe_warn(upipe, "discarding data without SPS/PPS");
         upipe_h264f_consume_uref_stream(upipe, upipe_h264f->au_size);
+        /* the NAL offsets of the discarded data must go with it */
+        if (upipe_h264f->next_uref != NULL)
+            uref_h26x_delete_nal_offsets(upipe_h264f->next_uref);
         upipe_h264f->au_size = 0;
         upipe_h264f->au_nal_units = 0;
         upipe_h264f->au_vcl_offset = -1;
@@ -2198,6 +2201,9 @@ static void upipe_h264f_end_annexb(struct upipe *upipe, struct upump **upump_p)
             upipe_warn(upipe, "discarding invalid slice data");
             upipe_h264f_consume_uref_stream(upipe, upipe_h264f->au_size);
             upipe_h264f->au_size = 0;
+            upipe_h264f->au_nal_units = 0;
+            if (upipe_h264f->next_uref != NULL)
+                uref_h26x_delete_nal_offsets(upipe_h264f->next_uref);
             return;
         }
         if (last_nal_type == H264NAL_TYPE_IDR) {
@@ -2211,6 +2217,9 @@ static void upipe_h264f_end_annexb(struct upipe *upipe, struct upump **upump_p)
         upipe_warn(upipe, "discarding non-slice data due to discontinuity");
         upipe_h264f_consume_uref_stream(upipe, upipe_h264f->au_size);
         upipe_h264f->au_size = 0;
+        upipe_h264f->au_nal_units = 0;
+        if (upipe_h264f->next_uref != NULL)
+            uref_h26x_delete_nal_offsets(upipe_h264f->next_uref);
         return;
     }
 
